@@ -61,4 +61,84 @@ theorem node_bytes_roundtrip (o : Opts) (t : Table) (m : Meta) (l : Location) (T
   rw [readFields_encodeFields _ hwf]
   exact node_fields_roundtrip o t m l T hd hid hl hT hsz
 
+theorem wf_packed (tag : Nat) (L : List Nat) (h0 : 0 < tag) (h1 : tag < 17) (hp : (pack L).length < 2 ^ 32) :
+    ∀ f ∈ fPacked tag L, f.WF := by
+  intro f hf
+  unfold fPacked at hf
+  split at hf <;> simp at hf
+  subst hf; exact wf_bytes _ _ h0 h1 hp
+
+/-- the Way message of the writer, serialized and parsed again -/
+theorem way_bytes_roundtrip (o : Opts) (t : Table) (m : Meta) (ns : List NodeRef) (T : List Bytes)
+    (hd : MetaInDomain m) (hid : IdOk m.id) (hn : WayInDomain ns)
+    (hT : Ext (encWay o t m ns).2.strings T) (hsz : (encWay o t m ns).2.size ≤ 2 ^ 31)
+    (hlen : (encodeFields (encWay o t m ns).1).length < 2 ^ 32) :
+    withFields (encodeFields (encWay o t m ns).1) (decodeWay { strings := T } {}) = project o (.way m ns) := by
+  have hwf : ∀ f ∈ (encWay o t m ns).1, f.WF := by
+    intro f hf
+    have hpl : f.wt = .lengthDelimited → f.payload.length < 2 ^ 32 := fun hw =>
+      Nat.lt_of_le_of_lt (ld_payload_le f _ hf hw) hlen
+    obtain ⟨ks, vs, u, hfs, _⟩ := encMeta_spec o t m
+    have e : (encWay o t m ns).1 = [fVarint 1 (u64 m.id)] ++ (encMeta o t m).1 ++
+        fPacked 8 ((Delta.encId (ns.map (·.ref))).map zigzag64) ++
+        (if o.locationsOnWays then
+          fPacked 10 ((Delta.encCoord (ns.map (·.location.x))).map zigzag64) ++
+          fPacked 9 ((Delta.encCoord (ns.map (·.location.y))).map zigzag64)
+         else []) := rfl
+    rw [e, hfs] at hf
+    have shape : ∀ (tag : Nat) (L : List Nat), 0 < tag → tag < 17 → f ∈ fPacked tag L → f.WF := fun tag L h0 h1 hm => by
+      unfold fPacked at hm
+      split at hm <;> simp at hm
+      subst hm; exact wf_bytes _ _ h0 h1 (hpl rfl)
+    simp only [List.mem_append, List.mem_cons, List.not_mem_nil, or_false] at hf
+    rcases hf with (((rfl | ((hf | hf) | hf)) | hf) | hf)
+    · exact wf_varint _ _ (by decide) (by decide) (u64_lt _)
+    · exact shape 2 _ (by decide) (by decide) hf
+    · exact shape 3 _ (by decide) (by decide) hf
+    · split at hf <;> simp at hf
+      subst hf; exact wf_bytes _ _ (by decide) (by decide) (hpl rfl)
+    · exact shape 8 _ (by decide) (by decide) hf
+    · split at hf
+      · rcases List.mem_append.mp hf with hf | hf
+        · exact shape 10 _ (by decide) (by decide) hf
+        · exact shape 9 _ (by decide) (by decide) hf
+      · simp at hf
+  unfold withFields
+  rw [readFields_encodeFields _ hwf]
+  exact way_fields_roundtrip o t m ns T hd hid hn hT hsz
+
+/-- the Relation message of the writer, serialized and parsed again -/
+theorem relation_bytes_roundtrip (o : Opts) (t : Table) (m : Meta) (ms : List Member) (T : List Bytes)
+    (hd : MetaInDomain m) (hid : IdOk m.id) (hm : RelInDomain ms)
+    (hT : Ext (encRelation o t m ms).2.strings T) (hsz : (encRelation o t m ms).2.size ≤ 2 ^ 31)
+    (hlen : (encodeFields (encRelation o t m ms).1).length < 2 ^ 32) :
+    withFields (encodeFields (encRelation o t m ms).1) (decodeRelation { strings := T } {}) = project o (.relation m ms) := by
+  have hwf : ∀ f ∈ (encRelation o t m ms).1, f.WF := by
+    intro f hf
+    have hpl : f.wt = .lengthDelimited → f.payload.length < 2 ^ 32 := fun hw =>
+      Nat.lt_of_le_of_lt (ld_payload_le f _ hf hw) hlen
+    obtain ⟨ks, vs, u, hfs, _⟩ := encMeta_spec o t m
+    have e : (encRelation o t m ms).1 = [fVarint 1 (u64 m.id)] ++ (encMeta o t m).1 ++
+        fPacked 8 ((((encMeta o t m).2.addAll (ms.map (·.role))).1).map fun r => u64 (toInt32 r)) ++
+        fPacked 9 ((Delta.encId (ms.map (·.ref))).map zigzag64) ++
+        fPacked 10 (ms.map fun x => u64 (nwrIndex x.type)) := rfl
+    rw [e, hfs] at hf
+    have shape : ∀ (tag : Nat) (L : List Nat), 0 < tag → tag < 17 → f ∈ fPacked tag L → f.WF := fun tag L h0 h1 hm => by
+      unfold fPacked at hm
+      split at hm <;> simp at hm
+      subst hm; exact wf_bytes _ _ h0 h1 (hpl rfl)
+    simp only [List.mem_append, List.mem_cons, List.not_mem_nil, or_false] at hf
+    rcases hf with ((((rfl | ((hf | hf) | hf)) | hf) | hf) | hf)
+    · exact wf_varint _ _ (by decide) (by decide) (u64_lt _)
+    · exact shape 2 _ (by decide) (by decide) hf
+    · exact shape 3 _ (by decide) (by decide) hf
+    · split at hf <;> simp at hf
+      subst hf; exact wf_bytes _ _ (by decide) (by decide) (hpl rfl)
+    · exact shape 8 _ (by decide) (by decide) hf
+    · exact shape 9 _ (by decide) (by decide) hf
+    · exact shape 10 _ (by decide) (by decide) hf
+  unfold withFields
+  rw [readFields_encodeFields _ hwf]
+  exact relation_fields_roundtrip o t m ms T hd hid hm hT hsz
+
 end Osmium.Pbf
